@@ -36,7 +36,10 @@ RULE = ("lev: autocorrelation lags synthesised from chosen rational reflection v
         "103,107,128}: the region where the double-precision computation is exact by construction, so the exact "
         "verdict is demanded. Histories also mutate in place (pop, append, setitem, clear, popitem) the lists / dicts "
         "returned by .numerator .denominator .numlist .denlist .numdict .dendict of a filter (and of the filter "
-        "returned by levinson_durbin) between calls on the same object.")
+        "returned by levinson_durbin) between calls on the same object. A hair from critical: reflection coefficients "
+        "and poles at 1 -+ 1e-12, 1 -+ 2**-40, 1 - 2**-52 (exact Fractions; dyadic order-1 float filters where the "
+        "double computation is exact), last / middle position, next to the same vectors with exactly +-1; lags scaled "
+        "by 1e-15, 1e12, -1e-7. levinson_durbin may raise only where Durbin's recursion itself breaks down.")
 EXHAUSTIVE = {"quick": False, "thorough": False}
 trusted_base = ["coefficients are exact rationals (ExactQ); the float 0.0 that Poly returns for an absent coefficient is "
                 "absorbed exactly",
@@ -164,7 +167,7 @@ def gen_lev(tier, rng):
       if r is not None:
         yield case(r, None, ["ks-exh", "order=%d" % n])
   # random reflection vectors
-  n = 350 if tier == "quick" else 4000
+  n = 280 if tier == "quick" else 4000
   for _ in range(n):
     p = rng.randrange(1, 7)
     ks = [rng.choice(KS_IN) for _ in range(p)]
@@ -272,7 +275,7 @@ def gen_pc(tier, rng):
     for num in ([], [F(0)], [F(1)], [F(1), F(1, 2)], [F(0), F(1), F(1, 2)], [F(0), F(0), F(3), F(1), F(1, 2)],
                 [F(0), F(0)], [F(2), F(1, 2), F(1, 3)]):
       yield case(num, den, ["odd-den"])
-  n = 300 if tier == "quick" else 3500
+  n = 220 if tier == "quick" else 3500
   for _ in range(n):
     p = rng.randrange(1, 8)
     kind = rng.random()
@@ -356,7 +359,7 @@ def gen_stab(tier, rng):
         roots.append(o)
     rng.shuffle(roots)
     yield case(roots, rng.choice(GAINS), ["mult-random", "mult=%d" % mult, cls(roots)])
-  n = 250 if tier == "quick" else 2000
+  n = 180 if tier == "quick" else 2000
   maxdeg = 6 if tier == "quick" else 10
   for _ in range(n):
     kind = rng.random()
@@ -451,7 +454,7 @@ def gen_coef(tier, rng):
   for den in ([], [F(0)], [F(0), F(0)], [F(0), F(1)], [F(0), F(1), F(-2)], [F(0), F(2), F(-1)], [F(2), F(-1), F(0), F(0)],
               [F(0), F(0), F(1), F(1, 2), F(0)]):
     yield case(den, ["degenerate"])
-  for _ in range(150 if tier == "quick" else 2500):
+  for _ in range(80 if tier == "quick" else 2500):
     n = rng.randrange(3, 8)
     den = [F(rng.randrange(-6, 7), rng.choice([1, 2, 3, 4]))] + \
           [F(rng.randrange(-6, 7), rng.choice([2, 3, 4, 8, 8, 8])) for _ in range(n)]
@@ -914,3 +917,80 @@ def gen_hist2(tier, rng):
 
 FAMILIES["hist"] = Family("hist", IMPORTS, "hcase", "corr_hist", "holds_hist", gen_hist2, run_hist, lit_hist,
                           nontrivial_hist, timeout=30)
+
+
+# ------------------------------------------------------------------ round 5, class (l): a hair from the critical value
+# Reflection coefficients / poles within 1e-12 or 2**-40 of magnitude one (exact Fractions), never equal to it: the
+# recursion, the step-down and the verdict are all defined there (no ParCorError, stable iff strictly inside), and
+# the same vectors with the entry exactly +-1 in last / middle position for contrast; lags scaled by 1e-15 .. 1e12.
+HAIR_IN = [1 - F(1, 10 ** 12), -(1 - F(1, 10 ** 12)), 1 - F(1, 2 ** 40), -(1 - F(1, 2 ** 40)), 1 - F(1, 2 ** 52)]
+HAIR_OUT = [1 + F(1, 10 ** 12), -(1 + F(1, 2 ** 40))]
+SCALES = [F(1), F(1, 10 ** 15), F(10 ** 12), F(-1, 10 ** 7), F(5, 3)]
+
+
+def _hair_ks(rng, p):
+  ks = [rng.choice(KS_IN) for _ in range(p)]
+  pos = rng.choice([p - 1, p - 1, rng.randrange(p)])
+  what = rng.random()
+  if what < 0.6: ks[pos] = rng.choice(HAIR_IN); tag = "hair-in"
+  elif what < 0.8: ks[pos] = rng.choice(HAIR_OUT); tag = "hair-out"
+  else: ks[pos] = rng.choice([F(1), F(-1)]); tag = "unit"
+  return ks, tag + ("-last" if pos == p - 1 else "-mid")
+
+
+def gen_lev2(tier, rng):
+  for c in gen_lev(tier, rng):
+    yield c
+  for hk in HAIR_IN + HAIR_OUT + [F(1), F(-1)]:              # order 1 .. 3 with the entry last, every scale
+    for pre in ([], [F(1, 2)], [F(1, 2), F(-1, 3)]):
+      for sc in SCALES:
+        r = lags_from_ks(pre + [hk], sc)
+        yield {"r": [fr(x) for x in r], "order": None, "tags": ["hair", "exh", "order=%d" % (len(pre) + 1)]}
+  for _ in range(60 if tier == "quick" else 700):
+    p = rng.randrange(1, 6)
+    ks, tag = _hair_ks(rng, p)
+    sc = rng.choice(SCALES)
+    r = lags_from_ks(ks, sc)
+    if r is None:                                            # unit in the middle: Durbin breaks down right after it
+      j = next(i for i, k in enumerate(ks) if k * k == 1)
+      r = lags_from_ks(ks[:j + 1], sc) + [F(rng.randrange(-3, 4), 2) * sc for _ in range(p - j - 1)]
+    yield {"r": [fr(x) for x in r], "order": None if rng.random() < 0.8 else len(r) - 1 + rng.randrange(0, 2),
+           "tags": ["hair", tag, "order=%d" % p]}
+
+
+def gen_pc3(tier, rng):
+  for c in gen_pc2(tier, rng):
+    yield c
+  for _ in range(50 if tier == "quick" else 600):
+    p = rng.randrange(1, 6)
+    ks, tag = _hair_ks(rng, p)
+    d = rng.choice([F(1), F(1), F(2), F(-1, 3)])
+    yield {"num": [fr(a * d) for a in rebuild_first_to_last(ks)], "den": [fr(d)], "tags": ["hair", tag, "order=%d" % p]}
+
+
+def gen_stab4(tier, rng):
+  for c in gen_stab3(tier, rng):
+    yield c
+  def case(roots, g, build, tags):
+    return {"roots": [[fr(x), fr(y)] for x, y in roots], "gain": fr(g), "den": [fr(x) for x in den_from_roots(g, roots)],
+            "build": build, "tags": tags}
+  hair = [(x, F(0)) for x in HAIR_IN + HAIR_OUT] + [(F(0), 1 - F(1, 2 ** 40)), (F(0), 1 + F(1, 2 ** 40))]
+  for i, rt in enumerate(hair):
+    for g in (GAINS[i % 5], GAINS[(i + 3) % 5]):
+      yield case([rt], g, "list", ["hair", "exh", "n=1"])
+      yield case([rt, ROOTS_IN[(i * 3) % len(ROOTS_IN)]], g, "list", ["hair", "exh", "n=2"])
+    if rt[1] == 0 and rt[0].denominator & (rt[0].denominator - 1) == 0:
+      # dyadic pole, power-of-two gain, order 1: the float computation decides exactly (|k| < 1 is a comparison of
+      # exactly represented numbers and no later coefficient exists)
+      for g in (F(1), F(-4), F(1, 2)):
+        yield case([rt], g, "fl", ["hair", "float-exact", "n=1"])
+  for _ in range(40 if tier == "quick" else 500):
+    roots = [rng.choice(hair)] + [rng.choice(ROOTS_IN) for _ in range(rng.randrange(0, 4))]
+    rng.shuffle(roots)
+    yield case(roots, rng.choice(GAINS), "list", ["hair", "random", "n=%d" % len(roots)])
+
+
+FAMILIES["lev"] = Family("lev", IMPORTS, "lcase", "corr_lev", "holds_lev", gen_lev2, run_lev, lit_lev, nontrivial_lev, timeout=30)
+FAMILIES["pc"] = Family("pc", IMPORTS, "pcase", "corr_pc", "holds_pc", gen_pc3, run_pc2, lit_pc, nontrivial_pc, timeout=30)
+FAMILIES["stab"] = Family("stab", IMPORTS, "scase", "corr_stab", "holds_stab", gen_stab4, run_stab, lit_stab,
+                          nontrivial_stab, timeout=30)
